@@ -124,24 +124,50 @@ func runC12(c *Ctx) {
 	}
 	if clean := c.Anchor("O3", "pkg/scheduler/cache", "SchedulerCache", "cleanStaleBindRequest"); clean != nil && isFailed != nil {
 		// the deleting closure is started for: every element of the deleted-node list; elements of the map behind IsFailed
-		var gos []ssa.Instruction
+		// a deletion is started by a `go` statement in this function, or in a local closure — then the places that
+		// count are the calls of that closure, with the request handed to it
+		type startSite struct {
+			at  ssa.Instruction
+			req *Term
+		}
+		var sites []startSite
 		for _, b := range clean.Blocks {
 			for _, in := range b.Instrs {
-				if _, ok := in.(*ssa.Go); ok {
-					gos = append(gos, in)
+				if g, ok := in.(*ssa.Go); ok {
+					sites = append(sites, startSite{in, termOf(g.Call.Args[len(g.Call.Args)-1])})
+				}
+				mc, ok := in.(*ssa.MakeClosure)
+				if !ok {
+					continue
+				}
+				cl := mc.Fn.(*ssa.Function)
+				for _, gin := range instrsIn(cl, func(x ssa.Instruction) bool { _, isGo := x.(*ssa.Go); return isGo }) {
+					g := gin.(*ssa.Go)
+					prm, isPrm := stripConv(g.Call.Args[len(g.Call.Args)-1]).(*ssa.Parameter)
+					if !isPrm {
+						continue
+					}
+					for _, call := range p.callsThroughValue(mc, 2) {
+						if call.Parent() != clean {
+							continue
+						}
+						args := call.Common().Args
+						if i := paramIndexOf(prm); i >= 0 && i < len(args) {
+							sites = append(sites, startSite{call, termOf(args[i])})
+						}
+					}
 				}
 			}
 		}
 		nFailedGuard, nUncond := 0, 0
-		for _, g := range gos {
-			fs := fx.FactsAt(g)
+		for _, st := range sites {
+			fs := fx.FactsAt(st.at)
 			if _, ok := hasFact(fs, func(f Fact) bool { return f.Pol && f.T.isCallTo(isFailed) }); ok {
 				nFailedGuard++
 			} else {
 				nUncond++
 				// unconditional deletion must iterate the deleted-nodes parameter
-				t := termOf(g.(*ssa.Go).Call.Args[len(g.(*ssa.Go).Call.Args)-1])
-				c.Check(rootParam(t) == 2, "O3", "PROV", funcKey(clean)+": unconditional deletion only for deleted-node requests", instrPos(g), trunc(t.String(), 100), "requests other than those for deleted nodes are deleted unconditionally")
+				c.Check(rootParam(st.req) == 2, "O3", "PROV", funcKey(clean)+": unconditional deletion only for deleted-node requests", instrPos(st.at), trunc(st.req.String(), 100), "requests other than those for deleted nodes are deleted unconditionally")
 			}
 		}
 		c.Check(nFailedGuard == 1 && nUncond == 1, "O3", "DOM", funcKey(clean)+": deletes deleted-node requests and terminally failed ones", clean.Pos(), "one unconditional loop (deleted nodes), one behind IsFailed()", fmt.Sprintf("stale-request cleanup changed shape: %d deletions behind IsFailed, %d unconditional", nFailedGuard, nUncond))
